@@ -359,27 +359,64 @@ end
 
 /-! ### member access -/
 
-theorem memberV_fn (K : Nat) (C : Ctx) (name : Name) (s1 : St) (hK : CtxRel s1 K C) :
-    SimFn s1 (memberVS K name) (memberV name) := by
-  intro s2 x hwf2 hle2
-  have hK2 := hK.mono hle2 hwf2
-  unfold EvalStore.memberVS Eval.memberV
-  cases x with
-  | dict d =>
-    refine post_child hwf2 hK2 (fun s3 Dt hwf3 _ hDt => ?_)
+theorem memberNone_post (K : Nat) (C : Ctx) (s : St) (hwf : WF s.cells) (hK : CtxRel s K C) :
+    Post QEq s (memberNoneS K s) (.error .unknownFunction : R Value) := by
+  unfold EvalStore.memberNoneS
+  refine post_child hwf hK (fun s3 Dt hwf3 _ hDt => ?_)
+  refine post_child hwf3 hDt (fun s4 G hwf4 _ hG => ?_)
+  exact post_child hwf4 hG (fun s5 _ hwf5 _ _ => post_fail _ hwf5)
+
+mutual
+/-- the projection of one element - of ANY kind, nested collections included: the store-passing run allocates
+    the delegate child and the operator's call context per element (for a nested collection: the call context
+    of the inner `collection_attribution`, under which the inner elements get theirs) and returns what `Eval`
+    returns -/
+theorem memberV_post (C : Ctx) (name : Name) : ∀ (x : Value) (K : Nat) (s : St), WF s.cells → CtxRel s K C →
+    Post QEq s (memberVS K name x s) (memberV name x)
+  | .dict d, K, s, hwf, hK => by
+    rw [EvalStore.memberVS, Eval.memberV]
+    refine post_child hwf hK (fun s3 Dt hwf3 _ hDt => ?_)
     refine post_child hwf3 hDt (fun s4 _ hwf4 _ _ => ?_)
-    simp only
     cases Seq.dGet d (.str name) with
     | some v => exact post_pure hwf4 rfl
     | none => exact post_fail _ hwf4
-  | tuple l => exact post_fail _ hwf2
-  | list l => exact post_fail _ hwf2
-  | set l => exact post_fail _ hwf2
-  | iter l => exact post_fail _ hwf2
-  | _ =>
-    refine post_child hwf2 hK2 (fun s3 Dt hwf3 _ hDt => ?_)
-    refine post_child hwf3 hDt (fun s4 G hwf4 _ hG => ?_)
-    exact post_child hwf4 hG (fun s5 _ hwf5 _ _ => post_fail _ hwf5)
+  | .tuple l, K, s, hwf, hK => by
+    rw [EvalStore.memberVS, Eval.memberV]
+    refine post_child hwf hK (fun s3 Dt hwf3 _ hDt => ?_)
+    refine post_child hwf3 hDt (fun s4 K2 hwf4 _ hK2 => ?_)
+    exact post_bind_eq (memberVL_post C name l K2 s4 hwf4 hK2) (fun s5 r hwf5 _ => post_liftR _ hwf5)
+  | .list l, K, s, hwf, hK => by
+    rw [EvalStore.memberVS, Eval.memberV]
+    refine post_child hwf hK (fun s3 Dt hwf3 _ hDt => ?_)
+    refine post_child hwf3 hDt (fun s4 K2 hwf4 _ hK2 => ?_)
+    exact post_bind_eq (memberVL_post C name l K2 s4 hwf4 hK2) (fun s5 r hwf5 _ => post_liftR _ hwf5)
+  | .iter l, K, s, hwf, hK => by
+    rw [EvalStore.memberVS, Eval.memberV]
+    refine post_child hwf hK (fun s3 Dt hwf3 _ hDt => ?_)
+    refine post_child hwf3 hDt (fun s4 K2 hwf4 _ hK2 => ?_)
+    exact post_bind_eq (memberVL_post C name l K2 s4 hwf4 hK2) (fun s5 r hwf5 _ => post_liftR _ hwf5)
+  | .set _, K, s, hwf, hK => by rw [EvalStore.memberVS, Eval.memberV]; exact post_fail _ hwf
+  | .null, K, s, hwf, hK => by rw [EvalStore.memberVS, Eval.memberV]; exact memberNone_post K C s hwf hK
+  | .bool _, K, s, hwf, hK => by rw [EvalStore.memberVS, Eval.memberV]; exact memberNone_post K C s hwf hK
+  | .int _, K, s, hwf, hK => by rw [EvalStore.memberVS, Eval.memberV]; exact memberNone_post K C s hwf hK
+  | .flt _, K, s, hwf, hK => by rw [EvalStore.memberVS, Eval.memberV]; exact memberNone_post K C s hwf hK
+  | .str _, K, s, hwf, hK => by rw [EvalStore.memberVS, Eval.memberV]; exact memberNone_post K C s hwf hK
+  | .host _, K, s, hwf, hK => by rw [EvalStore.memberVS, Eval.memberV]; exact memberNone_post K C s hwf hK
+theorem memberVL_post (C : Ctx) (name : Name) : ∀ (l : VL) (K : Nat) (s : St), WF s.cells → CtxRel s K C →
+    Post QEq s (memberVSL K name l s) (Eval.memberVL name l)
+  | [], K, s, hwf, hK => by rw [EvalStore.memberVSL, Eval.memberVL]; exact post_pure hwf rfl
+  | x :: xs, K, s, hwf, hK => by
+    rw [EvalStore.memberVSL, Eval.memberVL]
+    refine post_bind_eq (post_capture (memberV_post C name x K s hwf hK)) (fun s1 r hwf1 hle1 => ?_)
+    cases r with
+    | error er => exact post_pure hwf1 rfl
+    | ok v =>
+      exact post_bind_eq (memberVL_post C name xs K s1 hwf1 (hK.mono hle1 hwf1)) (fun s2 r hwf2 _ => post_pure hwf2 rfl)
+end
+
+theorem memberV_fn (K : Nat) (C : Ctx) (name : Name) (s1 : St) (hK : CtxRel s1 K C) :
+    SimFn s1 (memberVS K name) (memberV name) :=
+  fun s2 x hwf2 hle2 => memberV_post C name x K s2 hwf2 (hK.mono hle2 hwf2)
 
 theorem sim_memberOf (c : Nat) (C : Ctx) (s : St) (hwf : WF s.cells) (hC : CtxRel s c C) (r : ObjS) (r' : Obj)
     (hr : ObjRel s r r') (name : Name) :
@@ -431,6 +468,7 @@ theorem sim_memberOf (c : Nat) (C : Ctx) (s : St) (hwf : WF s.cells) (hC : CtxRe
         cases Seq.dGet d (.str name) with
         | some v => exact post_pure hwf1 (ObjRel.val _)
         | none => exact post_fail _ hwf1
+      | set l => exact post_fail _ hwf
       | _ => exact other _ _ hr'
 
 
